@@ -558,7 +558,7 @@ class Interp:
                     return D.cmpop(op, da, db)
                 return frozenset((0, 1)) if op in D._CMP else TOP
             if ty in ("f32", "f64"):
-                return D.fbinop(op, a, b)
+                return D.fbinop(op, a, b, ty)
             r = D.binop(op, a, b, ty)
             if op == "SubWithOverflow" and st.rel and isinstance(r, Agg) and r.f[1] != 0 \
                     and ty in D.INT_TYPES and not D.INT_TYPES[ty][1]:
@@ -602,11 +602,11 @@ class Interp:
                     a = TOP
                 return D.cast_int(a, to, frm)
             if ck.startswith("IntToFloat"):
-                return D.int_to_float(a)
+                return D.fl_round(D.int_to_float(a), to)
             if ck.startswith("FloatToInt"):
                 return D.float_to_int(a, to) if to in D.INT_TYPES else TOP
             if ck.startswith("FloatToFloat"):
-                return D.fl_of(a)
+                return D.fl_round(a, to)
             if ck.startswith("PointerCoercion") or ck.startswith("PtrToPtr"):
                 return a
             if ck.startswith("Transmute"):
